@@ -62,7 +62,7 @@ class DynModel(Model):
         # contract of BlockAllocationTable.__getitem__ / get (proved below): ValueError unless 0 <= block < max_entries;
         # None iff the raw entry is 0xFFFFFFFF
         i = eng.as_int(idx, st, node)
-        eng.ob("call.pre", st, i >= 0, node)
+        eng.pre(st, i >= 0, node)
         eng.may_raise("ValueError", st, i + 1 <= self.max_entries, node)
         e = self.BAT(i)
         st.ghost["io"] = st.ghost.get("io", z3.IntVal(0)) + 4
@@ -132,7 +132,7 @@ class BatModel(Model):
     def get(self, eng, st, args, node):
         (blk,) = args
         i = eng.as_int(blk, st, node)
-        eng.ob("call.pre", st, i >= 0, node)
+        eng.pre(st, i >= 0, node)
         eng.may_raise("ValueError", st, i + 1 <= self.max_entries, node)
         e = self.raw(i)
         return OptV(e == U32, IntV(e))
@@ -220,7 +220,7 @@ class VhdModel(Model):
 
     def read_sectors(self, eng, st, args, node):
         s, c = (eng.as_int(a, st, node) for a in args)
-        eng.ob("call.pre", st, z3.And(s >= 0, c >= 0, s + c <= self.cover), node)
+        eng.pre(st, z3.And(s >= 0, c >= 0, s + c <= self.cover), node)
         r = fresh("rs_len")
         arr = fresh("rs_arr", z3.ArraySort(I, I))
         st.hyps.append(z3.And(r == c * 512, z3.ForAll([K], z3.Implies(z3.And(0 <= K, K < r), z3.Select(arr, K) == self.G(s * 512 + K)))))
